@@ -262,6 +262,12 @@ int main(int argc, char **argv) {
   for (int i = 0; i < ng; i++) { auto m = gen_mesh(r, i % 2); if (m && i % 4 == 3) add_metadata(r, m.get()); if (m) encode_mesh_variants(r, *m, streams, thorough ? 5 : 3); }
   for (int i = 0; i < ng; i++) { auto p = gen_pc(r); if (p && i % 4 == 1) add_metadata(r, p.get()); if (p) encode_pc_variants(r, *p, streams, thorough ? 4 : 2); }
   boundary_meshes(streams, thorough);
+  // kd-tree streams at the highest compression level (speed 0: the decoder reads a 4-bit split axis per node) with >= 64 points; every
+  // single bit of these streams is flipped below
+  for (int dim2 = 0; dim2 < 2; dim2++) { PointCloudBuilder pb; int n = 80 + dim2 * 30; pb.Start(n); int pos = pb.AddAttribute(GeometryAttribute::POSITION, 3, DT_FLOAT32); int col = dim2 ? pb.AddAttribute(GeometryAttribute::COLOR, 3, DT_UINT8) : -1;
+    for (int i = 0; i < n; i++) { float p[3] = {(float)r.range(-500, 500) / 10.f, (float)r.range(-500, 500) / 10.f, (float)r.range(-100, 100) / 4.f}; pb.SetAttributeValueForPoint(pos, PointIndex(i), p); if (col >= 0) { uint8_t c[3] = {(uint8_t)r.below(256), (uint8_t)r.below(8), (uint8_t)i}; pb.SetAttributeValueForPoint(col, PointIndex(i), c); } }
+    auto pc = pb.Finalize(false); Encoder enc; enc.SetEncodingMethod(POINT_CLOUD_KD_TREE_ENCODING); enc.SetSpeedOptions(0, 0); enc.SetAttributeQuantization(GeometryAttribute::POSITION, 10);
+    EncoderBuffer eb; if (pc && enc.EncodePointCloudToBuffer(*pc, &eb).ok()) streams.push_back({std::vector<uint8_t>(eb.data(), eb.data() + eb.size()), "kd-level6 pc dims=" + S(3 + 3 * dim2), false}); }
   size_t ngen = streams.size();
   load_legacy(streams);
   std::vector<Case> cases; int metadata_sweeps = 0;
@@ -271,6 +277,8 @@ int main(int argc, char **argv) {
     int nc = thorough ? 400 : (s.legacy ? 40 : 60);
     if (s.bytes.size() > 20000) nc /= 4;
     for (int k = 0; k < nc; k++) { std::string what; auto b = corrupt(r, s.bytes, streams, what); int e = (int)r.below(10); cases.push_back({b, what + " of " + s.label, e < 5 ? (s.mesh ? 0 : 1) : (e < 8 ? 2 : (e < 9 ? 3 : (s.mesh ? 4 : 1)))}); }
+    if (s.label.compare(0, 9, "kd-level6") == 0)   // every single-bit flip
+      for (size_t p = 0; p < s.bytes.size(); p++) for (int bit = 0; bit < 8; bit++) { std::vector<uint8_t> b = s.bytes; b[p] ^= (uint8_t)(1u << bit); cases.push_back({b, "bitflip@" + U(p) + "." + S(bit) + " of " + s.label, 1}); }
     if (s.label.compare(0, 13, "boundary-mesh") == 0)   // deterministic sweep over the framing + connectivity bytes
       for (size_t p = 0; p < std::min<size_t>(s.bytes.size(), 44); p++) { const uint8_t o = s.bytes[p]; const uint8_t pats[] = {0x00, 0x7f, 0x80, 0xff, (uint8_t)(o ^ 1), (uint8_t)(o ^ 0x40), (uint8_t)(o + 1), (uint8_t)(o | 0x0f)};
         for (uint8_t v : pats) if (v != o) { std::vector<uint8_t> b = s.bytes; b[p] = v; cases.push_back({b, "sweep@" + U(p) + "=" + U(v) + " of " + s.label, 0}); } }
